@@ -47,6 +47,9 @@ type FnRun struct {
 	key      string
 	ctr      *Contract
 	loops    map[*ssa.BasicBlock]*loopInfo
+	clearRanges map[*ssa.Range]bool
+	mergeInto   *State
+	mergeMade   []*Obj
 	ord      map[ssa.Instruction]int
 	paths    int
 	caseName string
@@ -271,11 +274,113 @@ func (fr *FnRun) analyzeLoops() {
 			}
 		}
 	}
+	// `for k := range m { delete(m, k) }` is the map-clearing idiom: executed as clear(m), the loop
+	// itself is not cut (and not numbered)
+	fr.clearRanges = map[*ssa.Range]bool{}
+	kept := heads[:0]
+	for _, h := range heads {
+		if r := mapClearIdiom(fr.loops[h]); r != nil {
+			fr.clearRanges[r] = true
+			delete(fr.loops, h)
+			continue
+		}
+		kept = append(kept, h)
+	}
+	heads = kept
 	sort.Slice(heads, func(i, j int) bool { return blockPos(heads[i]) < blockPos(heads[j]) })
 	for i, h := range heads {
 		fr.loops[h].ordinal = i
 		fr.loops[h].spec = fr.ex.loopSpecFor(fr.ctr, i)
 	}
+}
+
+// mapClearIdiom recognises a two-block loop `for k := range m { delete(m, k) }` where both
+// occurrences of m are the same SSA value or loads of the same field of the same base.
+func mapClearIdiom(li *loopInfo) *ssa.Range {
+	if len(li.blocks) != 2 {
+		return nil
+	}
+	h := li.head
+	var hi []ssa.Instruction
+	for _, in := range h.Instrs {
+		if _, dbg := in.(*ssa.DebugRef); !dbg {
+			hi = append(hi, in)
+		}
+	}
+	if len(hi) != 3 {
+		return nil
+	}
+	nx, ok := hi[0].(*ssa.Next)
+	if !ok || nx.IsString {
+		return nil
+	}
+	rg, ok := nx.Iter.(*ssa.Range)
+	if !ok {
+		return nil
+	}
+	if _, isMap := under(rg.X.Type()).(*types.Map); !isMap {
+		return nil
+	}
+	okx, ok := hi[1].(*ssa.Extract)
+	if !ok || okx.Tuple != nx || okx.Index != 0 {
+		return nil
+	}
+	iff, ok := hi[2].(*ssa.If)
+	if !ok || iff.Cond != okx {
+		return nil
+	}
+	body := h.Succs[0]
+	if !li.blocks[body] || body == h {
+		return nil
+	}
+	var key *ssa.Extract
+	var del *ssa.Call
+	for i, in := range body.Instrs {
+		switch x := in.(type) {
+		case *ssa.Extract:
+			if x.Tuple != nx || x.Index != 1 || key != nil {
+				return nil
+			}
+			key = x
+		case *ssa.FieldAddr, *ssa.DebugRef:
+		case *ssa.UnOp:
+			if x.Op != token.MUL {
+				return nil
+			}
+		case *ssa.Call:
+			b, isB := x.Call.Value.(*ssa.Builtin)
+			if !isB || b.Name() != "delete" || del != nil {
+				return nil
+			}
+			del = x
+		case *ssa.Jump:
+			if i != len(body.Instrs)-1 {
+				return nil
+			}
+		default:
+			return nil
+		}
+	}
+	if key == nil || del == nil || del.Call.Args[1] != ssa.Value(key) {
+		return nil
+	}
+	same := func(a, b ssa.Value) bool {
+		if a == b {
+			return true
+		}
+		ua, ok1 := a.(*ssa.UnOp)
+		ub, ok2 := b.(*ssa.UnOp)
+		if !ok1 || !ok2 || ua.Op != token.MUL || ub.Op != token.MUL {
+			return false
+		}
+		fa, ok1 := ua.X.(*ssa.FieldAddr)
+		fb, ok2 := ub.X.(*ssa.FieldAddr)
+		return ok1 && ok2 && fa.X == fb.X && fa.Field == fb.Field
+	}
+	if !same(rg.X, del.Call.Args[0]) {
+		return nil
+	}
+	return rg
 }
 
 func blockPos(b *ssa.BasicBlock) token.Pos {
@@ -390,7 +495,7 @@ func (fr *FnRun) oblige(st *State, kind, detail string, goal *Term, clause *Clau
 	facts := st.facts
 	goal, facts = ex.skolemize(goal, facts)
 	o.Goal = goal
-	if goal.IsTrue() {
+	if goal.IsTrue() || contradictsHyp(st.facts, facts[len(st.facts):]) {
 		o.Trivial = true
 		ex.Obls = append(ex.Obls, o)
 		return
@@ -398,6 +503,33 @@ func (fr *FnRun) oblige(st *State, kind, detail string, goal *Term, clause *Clau
 	o.Facts = ex.closeFacts(facts, goal)
 	o.Script = Script(o.Facts, goal, ex.UFs, ex.AxiomTs)
 	ex.Obls = append(ex.Obls, o)
+}
+
+// contradictsHyp: a hypothesis of the goal is the syntactic negation of a fact already on the
+// path (typically `err == nil ==> ...` checked at an exit where err is known non-nil): the
+// obligation holds without a solver call.
+func contradictsHyp(facts, hyps []*Term) bool {
+	if len(hyps) == 0 {
+		return false
+	}
+	set := map[string]bool{}
+	for _, f := range facts {
+		for _, c := range conjuncts(f) {
+			set[c.String()] = true
+		}
+	}
+	for _, h := range hyps {
+		for _, c := range conjuncts(h) {
+			if c.Op == "not" && len(c.Args) == 1 {
+				if set[c.Args[0].String()] {
+					return true
+				}
+			} else if set[Not(c).String()] {
+				return true
+			}
+		}
+	}
+	return false
 }
 
 // skolemize turns a goal `forall x :: A ==> B` into hypotheses A[sk/x] and goal
@@ -489,6 +621,7 @@ func (fr *FnRun) checkPost(st *State, results []Val) {
 	e := &Env{st: st, old: fr.entry, vars: env, fr: fr}
 	var all []*Clause
 	if ctr != nil {
+		fr.bindLets(st, ctr, e)
 		all = append(all, ctr.Ensures...)
 	}
 	if fr.curCase != nil {
